@@ -175,6 +175,19 @@ def replay_trigger(fl, FA, vals=None, **kw):
                     trig = bool(np.all(r.triggered))
                     if trig != (rule_enabled and d > 0):
                         return {"failed": True, "expected": bool(rule_enabled and d > 0), "observed": trig, "cases": n, "call": f"triggered flag of rule 'then {text}' enabled={rule_enabled} degree={d}"}
+    # "carrying ... the BLOCK's implication operator": whichever activation method triggers the rule, the activated terms hold the block's implication object
+    for mk in (fl.General, lambda: fl.First(3, 0.0), lambda: fl.Last(3, 0.0), lambda: fl.Highest(3), lambda: fl.Lowest(3), fl.Proportional, lambda: fl.Threshold(">", 0.0)):
+        e = _engine(fl)
+        cj, dj, im = fl.Minimum(), fl.Maximum(), fl.AlgebraicProduct()
+        rb = fl.RuleBlock(name="rb", conjunction=cj, disjunction=dj, implication=im, activation=mk(), rules=[fl.Rule.create("if a is t then o is u and p is w", e), fl.Rule.create("if a is not t then q is u", e)])
+        e.rule_blocks.append(rb)
+        e.input_variables[0].value = 0.25
+        rb.activate()
+        n += 1
+        terms = [a for ov in e.output_variables for a in ov.fuzzy.terms]
+        if len(terms) != 3 or not all(a.implication is im for a in terms):
+            return {"failed": True, "expected": "3 activated terms, each carrying the block's implication operator AlgebraicProduct", "cases": n,
+                    "observed": [(a.term.name, type(a.implication).__name__) for a in terms], "call": f"RuleBlock(conjunction=Minimum, disjunction=Maximum, implication=AlgebraicProduct, activation={rb.activation}).activate()"}
     return {"failed": False, "cases": n}
 
 
@@ -444,6 +457,7 @@ def replay_antecedent(fl, FA, vals=None, depth=3, seed=0, budget=600, **kw):
                 act = mk()
                 rb = fl.RuleBlock(name="rb", conjunction=cj, disjunction=dj, implication=fl.Minimum(), activation=act, rules=([always] if before else []) + [r])
                 try:
+                    r.deactivate()          # whatever an earlier evaluation left in the rule: the block's activation computes the degree anew
                     rb.activate()
                     via = np.float64(r.activation_degree)
                 except Exception as ex:  # noqa
